@@ -61,4 +61,275 @@ def Inv (argv : Argv) (st : GState) : Prop :=
 /-- Termination measure: characters (and terminators) not yet passed. -/
 def mu (argv : Argv) (st : GState) : Nat := remChars argv st.optind + 1 - st.sp
 
+theorem nulFree_getElem {argv : Argv} (hn : NulFree argv) {i : Nat} {w : Bytes} (hw : argv[i]? = some w)
+    {j : Nat} (hj : j < w.length) : w[j] ≠ 0 := by
+  intro h0
+  exact hn w (List.mem_of_getElem? hw) (h0 ▸ List.getElem_mem hj)
+
+/-- The character after position `sp` as C reads it, with what it tells us. -/
+theorem wchar_next {argv : Argv} (hn : NulFree argv) {i : Nat} {w : Bytes} (hw : argv[i]? = some w)
+    {sp : Nat} (hs : sp < w.length) :
+    (sp + 1 = w.length ∧ wchar w (sp + 1) = .ok 0) ∨
+    (sp + 1 < w.length ∧ ∃ c, c ≠ 0 ∧ wchar w (sp + 1) = .ok c) := by
+  by_cases h : sp + 1 < w.length
+  · exact .inr ⟨h, w[sp + 1], nulFree_getElem hn hw h, wchar_lt h⟩
+  · have : sp + 1 = w.length := by omega
+    exact .inl ⟨this, this ▸ wchar_len w⟩
+
+theorem attDecide_spec (opts : Bytes) (argv : Argv) (st : GState) (w a0 : Bytes) (nxt : UInt8)
+    (look : Option Bool)
+    (h1 : 1 ≤ st.optind) (hw : argv[st.optind]? = some w) (hs1 : 1 ≤ st.sp) (hs : st.sp < w.length)
+    (hhead : argv.head? = some a0)
+    (hlook : look = some true → optLookup opts w[st.sp] = some true)
+    (hlook' : look = some false → optLookup opts w[st.sp] = some false)
+    (hnx : (st.sp + 1 = w.length ∧ nxt = 0) ∨ (st.sp + 1 < w.length ∧ nxt ≠ 0)) :
+    ∃ e st', attDecide argv st w a0 w[st.sp] nxt look = .ok (.ev e st') ∧ Inv argv st' ∧
+      mu argv st' < mu argv st ∧ EvOK opts argv e := by
+  have hlt : st.optind < argv.length := (List.getElem?_eq_some_iff.mp hw).1
+  have hrem := remChars_cons hw
+  have hmono := remChars_succ_le argv (st.optind + 1)
+  -- the shared "advance" step
+  have hadv : Inv argv (advance st nxt) ∧ mu argv (advance st nxt) < mu argv st := by
+    rcases hnx with ⟨hend, h0⟩ | ⟨hmid, hne⟩
+    · subst h0
+      have : advance st 0 = ⟨st.optind + 1, 1⟩ := by simp [advance]
+      rw [this]
+      refine ⟨⟨by simp, .inl rfl⟩, ?_⟩
+      simp only [mu]
+      omega
+    · have hb : (nxt == 0) = false := by simpa using hne
+      have : advance st nxt = ⟨st.optind, st.sp + 1⟩ := by simp [advance, hb]
+      rw [this]
+      refine ⟨⟨h1, .inr ⟨w, hw, by simp; omega, by simpa using hmid⟩⟩, ?_⟩
+      simp only [mu]
+      omega
+  have hmsgI : ∀ m ∈ [attIllegal a0 w[st.sp]], ∃ a r, argv.head? = some a ∧ m = a ++ b!": " ++ r := by
+    intro m hm
+    rw [List.mem_singleton] at hm
+    exact ⟨a0, b!"illegal option -- " ++ [w[st.sp]], hhead, by rw [hm]; simp [attIllegal]⟩
+  have hmsgN : ∀ m ∈ [attNeedsArg a0 w[st.sp]], ∃ a r, argv.head? = some a ∧ m = a ++ b!": " ++ r := by
+    intro m hm
+    rw [List.mem_singleton] at hm
+    exact ⟨a0, b!"option requires an argument -- " ++ [w[st.sp]], hhead, by rw [hm]; simp [attNeedsArg]⟩
+  cases look with
+  | none =>
+    exact ⟨_, _, rfl, hadv.1, hadv.2, fun h => absurd rfl h, hmsgI⟩
+  | some b =>
+    cases b with
+    | false =>
+      refine ⟨_, _, rfl, hadv.1, hadv.2, ?_, by intro m hm; cases hm⟩
+      intro _ h
+      rw [hlook' rfl] at h
+      cases h
+    | true =>
+      rcases hnx with ⟨hend, h0⟩ | ⟨hmid, hne⟩
+      · subst h0
+        by_cases hge : st.optind + 1 ≥ argv.length
+        · refine ⟨⟨63, none, [attNeedsArg a0 w[st.sp]]⟩, ⟨st.optind + 1, 1⟩, ?_, ⟨by simp, .inl rfl⟩, ?_,
+            fun h => absurd rfl h, hmsgN⟩
+          · simp [attDecide, hge]
+          · simp only [mu]; omega
+        · have hlt2 : st.optind + 1 < argv.length := by omega
+          have hnext : argv[st.optind + 1]? = some argv[st.optind + 1] := by simp [hlt2]
+          have hrem2 := remChars_cons hnext
+          rw [show st.optind + 1 + 1 = st.optind + 2 from rfl] at hrem2
+          refine ⟨⟨w[st.sp], some argv[st.optind + 1], []⟩, ⟨st.optind + 2, 1⟩, ?_, ⟨by simp, .inl rfl⟩, ?_,
+            fun _ _ => rfl, by intro m hm; cases hm⟩
+          · simp [attDecide, hge, argvAt_some hnext]
+          · simp only [mu]; omega
+      · have hb : (nxt != 0) = true := by simp [hne]
+        refine ⟨⟨w[st.sp], some (w.drop (st.sp + 1)), []⟩, ⟨st.optind + 1, 1⟩, ?_, ⟨by simp, .inl rfl⟩, ?_,
+          fun _ _ => rfl, by intro m hm; cases hm⟩
+        · simp [attDecide, hb]
+        · simp only [mu]; omega
+
+theorem attBody_spec (opts : Bytes) (argv : Argv) (st : GState) (w : Bytes) (hn : NulFree argv)
+    (h1 : 1 ≤ st.optind) (hw : argv[st.optind]? = some w) (hs1 : 1 ≤ st.sp) (hs : st.sp < w.length) :
+    ∃ e st', attBody opts argv st = .ok (.ev e st') ∧ Inv argv st' ∧ mu argv st' < mu argv st ∧
+      EvOK opts argv e := by
+  have hlt : st.optind < argv.length := (List.getElem?_eq_some_iff.mp hw).1
+  have hc : w[st.sp] ≠ 0 := nulFree_getElem hn hw hs
+  have hc' : (w[st.sp] == 0) = false := by simpa using hc
+  obtain ⟨a0, ha0⟩ : ∃ a0, argv[0]? = some a0 :=
+    ⟨argv[0]'(by omega), List.getElem?_eq_getElem (by omega)⟩
+  have hhead : argv.head? = some a0 := by
+    cases argv with
+    | nil => simp at ha0
+    | cons x xs => simpa using ha0
+  obtain ⟨nxt, hnxt, hnx⟩ : ∃ nxt, wchar w (st.sp + 1) = .ok nxt ∧
+      ((st.sp + 1 = w.length ∧ nxt = 0) ∨ (st.sp + 1 < w.length ∧ nxt ≠ 0)) := by
+    rcases wchar_next hn hw hs with ⟨hend, h⟩ | ⟨hmid, c, hcne, h⟩
+    · exact ⟨0, h, .inl ⟨hend, rfl⟩⟩
+    · exact ⟨c, h, .inr ⟨hmid, hcne⟩⟩
+  have hb : attBody opts argv st =
+      attDecide argv st w a0 w[st.sp] nxt (if w[st.sp] == 58 then none else optLookup opts w[st.sp]) := by
+    simp [attBody, argvAt_some hw, wchar_lt hs, argvAt_some ha0, hc', hnxt]
+  rw [hb]
+  apply attDecide_spec opts argv st w a0 nxt _ h1 hw hs1 hs hhead _ _ hnx
+  · intro h
+    split at h
+    · cases h
+    · exact h
+  · intro h
+    split at h
+    · cases h
+    · exact h
+
+theorem attStep_spec (opts : Bytes) (argv : Argv) (st : GState) (hn : NulFree argv) (hi : Inv argv st) :
+    (∃ st', attStep opts argv st = .ok (.eof st') ∧ 1 ≤ st'.optind) ∨
+    (∃ e st', attStep opts argv st = .ok (.ev e st') ∧ Inv argv st' ∧ mu argv st' < mu argv st ∧
+      EvOK opts argv e) := by
+  obtain ⟨h1, hsp⟩ := hi
+  rcases hsp with hsp | ⟨w, hw, hgt, hlt⟩
+  · -- at the beginning of a word
+    unfold attStep
+    simp only [hsp, beq_self_eq_true, if_true]
+    by_cases hge : st.optind ≥ argv.length
+    · exact .inl ⟨st, by simp [hge], h1⟩
+    · simp only [hge, if_false]
+      have hl : st.optind < argv.length := by omega
+      have hw : argv[st.optind]? = some argv[st.optind] := List.getElem?_eq_getElem hl
+      generalize argv[st.optind] = w at hw
+      simp only [argvAt_some hw]
+      match w, hw with
+      | [], _ => exact .inl ⟨st, by simp [wchar], h1⟩
+      | c0 :: rest, hw =>
+        by_cases h45 : c0 = 45
+        · subst h45
+          match rest, hw with
+          | [], _ => exact .inl ⟨st, by simp [wchar], h1⟩
+          | c1 :: r, hw =>
+            have hc1 : c1 ≠ 0 := by
+              have := nulFree_getElem hn hw (j := 1) (by simp)
+              simpa using this
+            have hb : (c1 == 0) = false := by simpa using hc1
+            have := attBody_spec opts argv st (45 :: c1 :: r) hn h1 hw (by omega) (by simp [hsp])
+            refine .inr ?_
+            simpa [wchar, hb] using this
+        · have hb : (c0 != 45) = true := by simp [h45]
+          exact .inl ⟨st, by simp [wchar, hb], h1⟩
+  · -- in the middle of a word (`sp > 1`): the word cannot be "--"
+    unfold attStep
+    have hne : (st.sp == 1) = false := by
+      simp only [beq_eq_false_iff_ne, ne_eq]
+      omega
+    have hdd : (w == b!"--") = false := by
+      simp only [beq_eq_false_iff_ne, ne_eq]
+      intro h
+      rw [h] at hlt
+      simp at hlt
+      omega
+    simp only [hne, Bool.false_eq_true, if_false, argvAt_some hw, hdd]
+    exact .inr (attBody_spec opts argv st w hn h1 hw (by omega) hlt)
+
+theorem attLoop_spec (opts : Bytes) (argv : Argv) (hn : NulFree argv) :
+    ∀ (n : Nat) (st : GState) (acc : List Ev), Inv argv st → mu argv st < n →
+      (∀ e ∈ acc, EvOK opts argv e) →
+      ∃ sr, attLoop opts argv n st acc = .ok sr ∧ ScanOK opts argv sr := by
+  intro n
+  induction n with
+  | zero => intro st acc _ h; omega
+  | succ n ih =>
+    intro st acc hi hmu hacc
+    rcases attStep_spec opts argv st hn hi with ⟨st', hst, h1⟩ | ⟨e, st', hst, hi', hlt, hev⟩
+    · refine ⟨⟨acc.reverse, st'.optind, argv⟩, by simp [attLoop, hst], rfl, rfl, h1, ?_⟩
+      intro e he
+      exact hacc e (List.mem_reverse.mp he)
+    · have := ih st' (e :: acc) hi' (by omega) (by
+        intro x hx
+        rcases List.mem_cons.mp hx with rfl | hx
+        · exact hev
+        · exact hacc x hx)
+      simpa [attLoop, hst] using this
+
+/-- `wbxml_getopt` run to EOF on any argv of C strings: no read outside a string, no dereference of
+    `argv[argc]`, the fuel is never exhausted, and the result honours the contract. -/
+theorem attScan_ok (opts : Bytes) (argv : Argv) (hn : NulFree argv) :
+    ∃ sr, attScan opts argv = .ok sr ∧ ScanOK opts argv sr := by
+  apply attLoop_spec opts argv hn (attFuel argv) ⟨1, 1⟩ [] ⟨Nat.le_refl 1, .inl rfl⟩
+  · have := remChars_succ_le argv 0
+    rw [show (0 : Nat) + 1 = 1 from rfl] at this
+    simp only [mu, attFuel]
+    omega
+  · intro e he
+    cases he
+
+/-! ### glibc getopt specification -/
+
+theorem gnuCluster_evs (opts a0 : Bytes) (argv : Argv) (hh : argv.head? = some a0) :
+    ∀ (cs : Bytes) (next : List Bytes), ∀ e ∈ (gnuCluster opts a0 cs next).1, EvOK opts argv e := by
+  intro cs
+  induction cs with
+  | nil => intro next e he; simp [gnuCluster] at he
+  | cons c cs ih =>
+    intro next e he
+    unfold gnuCluster at he
+    split at he
+    · rcases List.mem_cons.mp he with rfl | he
+      · refine ⟨fun h => absurd rfl h, ?_⟩
+        intro m hm
+        rw [List.mem_singleton] at hm
+        exact ⟨a0, b!"invalid option -- '" ++ [c] ++ b!"'", hh, by rw [hm]; simp [gnuInvalid]⟩
+      · exact ih next e he
+    · rename_i hl
+      rcases List.mem_cons.mp he with rfl | he
+      · refine ⟨?_, by intro m hm; cases hm⟩
+        intro _ h
+        split at hl
+        · cases hl
+        · rw [hl] at h; cases h
+      · exact ih next e he
+    · split at he
+      · rw [List.mem_singleton] at he
+        subst he
+        exact ⟨fun _ _ => rfl, by intro m hm; cases hm⟩
+      · rw [List.mem_singleton] at he
+        subst he
+        refine ⟨fun h => absurd rfl h, ?_⟩
+        intro m hm
+        rw [List.mem_singleton] at hm
+        exact ⟨a0, b!"option requires an argument -- '" ++ [c] ++ b!"'", hh, by rw [hm]; simp [gnuNeedsArg]⟩
+      · rw [List.mem_singleton] at he
+        subst he
+        exact ⟨fun _ _ => rfl, by intro m hm; cases hm⟩
+
+theorem gnuWords_spec (opts a0 : Bytes) (argv : Argv) (hh : argv.head? = some a0) :
+    ∀ (ws : List Bytes) (skip : Bool),
+      (∀ e ∈ (gnuWords opts a0 ws skip).evs, EvOK opts argv e) ∧
+      (gnuWords opts a0 ws skip).optWords.length + (gnuWords opts a0 ws skip).nonOpts.length = ws.length := by
+  intro ws
+  induction ws with
+  | nil => intro skip; simp [gnuWords]
+  | cons w rest ih =>
+    intro skip
+    cases skip with
+    | true =>
+      have := ih false
+      simp only [gnuWords, List.length_cons]
+      exact ⟨this.1, by omega⟩
+    | false =>
+      unfold gnuWords
+      split
+      · simp
+        omega
+      · split
+        · have := ih (gnuCluster opts a0 (w.drop 1) rest).2
+          refine ⟨?_, by simp only [List.length_cons]; omega⟩
+          intro e he
+          rcases List.mem_append.mp he with he | he
+          · exact gnuCluster_evs opts a0 argv hh _ _ e he
+          · exact this.1 e he
+        · have := ih false
+          exact ⟨this.1, by simp only [List.length_cons]; omega⟩
+
+/-- The glibc scanner specification honours the contract for every argv. -/
+theorem gnuScan_ok (opts : Bytes) (argv : Argv) : ScanOK opts argv (gnuScan opts argv) := by
+  cases argv with
+  | nil => exact ⟨rfl, rfl, Nat.le_refl 1, by intro e he; cases he⟩
+  | cons a0 rest =>
+    have := gnuWords_spec opts a0 (a0 :: rest) rfl rest false
+    refine ⟨?_, rfl, by simp [gnuScan], this.1⟩
+    simp only [gnuScan, List.length_cons, List.length_append]
+    omega
+
 end Wbxml.Model.Tool
